@@ -474,6 +474,53 @@ func (w *writer) ReopenReader() (*reader, int64, int64) {""")]),
 			} else {
 				continue
 			}""")]),
+ ("copyFile: skip decision in negative form", [("pkg/segment/utils.go", """		case stat.Size() == dstStat.Size() && stat.ModTime().Equal(dstStat.ModTime()):
+			// TODO do we need a safer version of this?
+			return nil
+		}""", """		case stat.Size() != dstStat.Size() || !stat.ModTime().Equal(dstStat.ModTime()):
+			// differs, copy it again
+		default:
+			return nil
+		}""")]),
+ ("writerIndex.Time through locals, index params through a helper taking Options", [("log_writer.go", """	return index.Time(ix.items, ts)
+}
+
+func (ix *writerIndex) Len() int {""", """	pos, err := index.Time(ix.items, ts)
+	if err != nil {
+		return 0, err
+	}
+	return pos, nil
+}
+
+func (ix *writerIndex) Len() int {"""), ("api.go", """	return segment.CheckDir(dir, index.Params{
+		Times: opts.TimeIndex,
+		Keys:  opts.KeyIndex,
+	})""", """	return segment.CheckDir(dir, indexParamsOf(opts))"""), ("api.go", """	return segment.RecoverDir(dir, index.Params{
+		Times: opts.TimeIndex,
+		Keys:  opts.KeyIndex,
+	})""", """	return segment.RecoverDir(dir, indexParamsOf(opts))"""), ("api.go", "// Check runs an integrity check", """func indexParamsOf(opts Options) index.Params {
+	return index.Params{Keys: opts.KeyIndex, Times: opts.TimeIndex}
+}
+
+// Check runs an integrity check""")]),
+ ("reader.Delete closes through a helper; batch reader with the bound test inside the loop", [("log_reader.go", """	// log already has reader lock exclusively, no need to sync here
+	if err := r.Close(); err != nil {
+		return nil, err
+	}
+""", """	// log already has reader lock exclusively, no need to sync here
+	if err := r.closeAll(); err != nil {
+		return nil, err
+	}
+"""), ("log_reader.go", "func (r *reader) Delete(rs *segment.RewriteSegment) (*reader, error) {", """func (r *reader) closeAll() error {
+	return r.Close()
+}
+
+func (r *reader) Delete(rs *segment.RewriteSegment) (*reader, error) {"""), ("pkg/message/format.go", """	for ; i < maxCount && position <= maxPosition; i++ {
+		next, err := r.reader(position, &msgs[i])""", """	for ; position <= maxPosition; i++ {
+		if i >= maxCount {
+			break
+		}
+		next, err := r.reader(position, &msgs[i])""")]),
 ]
 
 def main():
